@@ -175,6 +175,11 @@ def run(ctx, host=None):
     RDB = chk.rule('C06.R5', 'transaction premises: commits are explicit, atomic and durable (explicit BEGIN, no autocommit, only PRAGMA journal_mode=wal)', 1)
     transaction_premises(ctx, chk, RDB)
 
+    # rules of other properties that are necessary conditions of this one too: durability of what was synced assumes packs are append-only (C13)
+    if host is None:
+        from ..report import host_modules
+        host_modules(chk, ctx, ['C13'])
+
     return chk.finish(
         explanation=('Static typestate analysis on inlined control-flow graphs: durability facts (volatile/durable) per file, '
                      'set durable only by flush followed by fsync of that file\'s descriptor; COMMIT / rename / unlink transitions '
